@@ -22,7 +22,7 @@ from pathlib import Path
 from . import common as C
 from .common import cstr, cbool, clist, copt, ctuple
 
-HEADER = "From AM.Model Require Import Base Path Targets."
+HEADER = "From AM.Model Require Import Base Path Targets Deb822 Select."
 HT = {"SHA512": "SHA512", "SHA256": "SHA256", "SHA1": "SHA1", "MD5Sum": "MD5"}
 
 
@@ -138,6 +138,45 @@ def impl_release(skel_base: Path, directory: str, byhash_flag: bool, policy: str
     return root, sorted(touched)
 
 
+def impl_release2(skel_base: Path, directory: str, policy: str, rfiles):
+    """rfiles: {'InRelease': {'flag': bool, 'entries': [...]}|None, 'Release': ...}"""
+    from apt_mirror.repository import ByHash, FlatDirectory, FlatRepository
+    from apt_mirror.download import URL
+    d = Path(directory)
+    repo = FlatRepository(
+        url=URL.from_string("http://h/repo"), clean=False, skip_clean=set(), http2_disable=False,
+        mirror_dist_upgrader=False, mirror_path=None, ignore_errors=set(),
+        directories=FlatRepository.FlatDirectories([(d, FlatDirectory(ByHash(policy), d, True, True))]))
+    root = skel_base / repo.get_mirror_path(False)
+    rel = root / d
+    rel.mkdir(parents=True, exist_ok=True)
+    for name in ("InRelease", "Release"):
+        p = rel / name
+        if p.exists():
+            p.unlink()
+        rf = rfiles.get(name)
+        if rf is None:
+            continue
+        lines = ["Origin: t"] + (["Acquire-By-Hash: yes"] if rf["flag"] else [])
+        by_field = {}
+        for field, h, size, nm in rf["entries"]:
+            by_field.setdefault(field, []).append((h, size, nm))
+        for field, es in by_field.items():
+            lines.append(f"{field}:")
+            lines += [f" {h} {size} {nm}" for h, size, nm in es]
+        p.write_bytes(("\n".join(lines) + "\n").encode("utf-8", "surrogateescape"))
+    files = repo.get_metadata_files(skel_base, False, set())
+    touched = set()
+    for f in files:
+        for v in f.compression_variants.values():
+            for q in v.get_all_paths():
+                touched.add(str(q))
+    for name in ("InRelease", "Release"):
+        if (rel / name).exists():
+            (rel / name).unlink()
+    return root, sorted(touched)
+
+
 def impl_packages(root: Path, filename: str):
     from apt_mirror.filter import PackageFilter
     from apt_mirror.repository import PackagesParser
@@ -190,6 +229,13 @@ Definition m_packages (c : string * string) : list string :=
 Definition m_sources (c : string * string * string) : list string :=
   match c with (root, d, f) => sort_s (show_paths (sources_targets true (parse root) d f)) end.
 Definition eq_ls := list_eqb String.eqb.
+Definition mke n s t h := {| le_name := n; le_size := s; le_type := t; le_hash := h |}.
+Definition m_release2 (c : string * string * byhash_opt * list (bool * list lentry)) : list string :=
+  match c with (root, rdir, opt, files) =>
+    sort_s (flat_map (fun g => flat_map (fun v => map render (variant_all_paths v)) (g_variants g))
+             (select (fun _ => true) [] opt (parse root) (parse rdir)
+                     (map (fun f => {| rf_byhash := fst f; rf_entries := snd f |}) files)))
+  end.
 """
 
 
@@ -203,6 +249,7 @@ def run_cases(rep: C.Report, cases: dict, skel: Path, mirror: Path, corpus=False
     found = False
     skel_base = skel.parent.parent  # .../b/skel
     out = {k: [] for k in cases}
+    out.setdefault("release2", [])
     for c in cases["guard"]:
         safe, rendered = impl_guard(skel, c["s"])
         rep.case(("guard", safe, c["s"].count(".."), c["s"].startswith("/")), sample={"tie": "guard", **c})
@@ -232,6 +279,29 @@ def run_cases(rep: C.Report, cases: dict, skel: Path, mirror: Path, corpus=False
                         f"Release entry accepted; derived path {q!r} resolves outside {r}",
                         {"kind": "oracle", "tie": "release", "case": c, "path": q, "root": str(r)},
                         tags={"site": "release"})
+    for c in cases.get("release2", []):
+        root, touched = impl_release2(skel_base, c["dir"], c["policy"], c["files"])
+        rep.case(("release2", bool(touched), c["policy"], tuple((k, v["flag"]) for k, v in c["files"].items() if v)),
+                 sample={"tie": "release2", **c})
+        rep.count("release2.accepted" if touched else "release2.rejected")
+        order = {"SHA512": 0, "SHA256": 1, "SHA1": 2, "MD5Sum": 3}
+        fl = []
+        for name in ("InRelease", "Release"):
+            rf = c["files"].get(name)
+            if rf is None:
+                continue
+            es = sorted(rf["entries"], key=lambda e: order[e[0]])   # iteration order: hash type, then position (stable)
+            fl.append(ctuple(cbool(rf["flag"]), clist("(mke %s %s %s %s)" % (cstr(n), cstr(str(sz)), HT[f], cstr(h)) for f, h, sz, n in es)))
+        out.setdefault("release2", []).append((c, ctuple(cstr(str(root)), cstr(c["dir"]), {"yes": "BHYes", "no": "BHNo", "force": "BHForce"}[c["policy"]], clist(fl)),
+                                               clist(cstr(t) for t in touched)))
+        for q in touched:
+            for r in (root, mirror):
+                if not under(r, q):
+                    found = True
+                    rep.violation(
+                        f"release files accepted; derived path {q!r} resolves outside {r}",
+                        {"kind": "oracle", "tie": "release2", "case": c, "path": q, "root": str(r)},
+                        tags={"site": "release2"})
     for c in cases["packages"]:
         touched = impl_packages(skel, c["s"])
         rep.case(("packages", bool(touched), c["s"].count("..")), sample={"tie": "packages", **c})
@@ -283,6 +353,19 @@ def generate(rng, n, skel):
             continue
         cases["release"].append({"dir": rng.choice([".", "sub", "a/b", "x.gz"]), "flag": rng.random() < 0.6,
                                  "policy": rng.choice(["yes", "no", "force"]), "entries": es})
+    cases["release2"] = []
+    for _ in range(n // 3):
+        names = [nm for nm in (gen_path_string(rng, skel) for _ in range(2)) if ok_field(nm)] or ["main/Packages.xz"]
+        def mkfile():
+            es = []
+            for nm in names:
+                for ht in rng.sample(list(HT), rng.randint(1, 2)):
+                    h = gen_hash(rng, skel)
+                    if ok_field(h):
+                        es.append([ht, h, 77, nm])
+            return {"flag": rng.random() < 0.5, "entries": es}
+        files = {"InRelease": mkfile() if rng.random() < 0.8 else None, "Release": mkfile() if rng.random() < 0.8 else None}
+        cases["release2"].append({"dir": rng.choice([".", "sub", "a/b"]), "policy": rng.choice(["yes", "yes", "no", "force"]), "files": files})
     for _ in range(n // 2):
         s = gen_path_string(rng, skel)
         if ok_field(s):
@@ -302,7 +385,7 @@ def corpus_cases(skel: Path):
     k = 3
     climb = "/".join([".."] * k + names[-k:] + ["x"])
     deep = "/".join([".."] * (len(names) + 4)) + "/x"
-    cases = {"guard": [{"s": climb}], "release": [], "packages": [{"s": climb}],
+    cases = {"guard": [{"s": climb}], "release": [], "release2": [], "packages": [{"s": climb}],
              "sources": [{"d": "pool/a", "f": climb}]}
     cases["release"].append({"dir": "dists/c", "flag": False, "policy": "yes",
                              "entries": [["SHA256", "00", 5, "/".join([".."] * 4 + names[-4:] + ["x"])]]})
@@ -324,6 +407,7 @@ def corpus_cases(skel: Path):
 TIES = {
     "guard": ("m_guard", "eq_guard"),
     "release": ("m_release", "eq_ls"),
+    "release2": ("m_release2", "eq_ls"),
     "packages": ("m_packages", "eq_ls"),
     "sources": ("m_sources", "eq_ls"),
 }
@@ -366,7 +450,7 @@ def replay(rep: C.Report, path: str):
     j = json.loads(Path(path).read_text())
     top, skel, mirror = mk_sandbox()
     try:
-        cases = {"guard": [], "release": [], "packages": [], "sources": []}
+        cases = {"guard": [], "release": [], "release2": [], "packages": [], "sources": []}
         if j.get("tie") in cases and "case" in j:
             cases[j["tie"]].append(j["case"])
         out, found = run_cases(rep, cases, skel, mirror)
